@@ -1105,7 +1105,11 @@ class Monitor:
                 shutil.rmtree(home, ignore_errors=True)
         else:
             for i, d in enumerate(self.spec['T']):
+                t_start = self.env.now
                 self.sys.simulate(d, print_summary=False)
+                if 'head' in self.on and self.env.now != t_start + d:
+                    self.bad('C01.run', f'simulate({d}) started at {t_start} ended with the clock at {self.env.now}, '
+                             f'expected {t_start + d}')
                 for f in (self.m.between.get(i, []) if i < len(self.spec['T']) - 1 else []):
                     f()
                 self.adopt_late_devices()
